@@ -70,9 +70,48 @@ def run(ctx):
                       "collector arm %s visits nothing although it has sub-terms" % vs, [facts.bodies()[COLLECTOR + "term"]["loc"][0], a["ln"]],
                       detail={"variants": vs, "leaf": True})
     rule_fresh_clone(ctx)
+    rule_pattern_binders(ctx)
     ctx.assume("the theorem 'these scoping rules imply alpha-invariance of behaviour' is NOT decided; the golden scope table is my "
                "audited reading of the language's scoping rules")
     return {}
+
+
+BINDERS = "<zydeco_surface::bitter::syntax::PatId as zydeco_surface::scoped::binders::Binders>::binders"
+
+
+def rule_pattern_binders(ctx):
+    """The names a `that` pattern contributes to its block: components bind left to right, so on a repeated name the later
+    component is the one the block sees (as in the lexical resolution of the same pattern)."""
+    facts = ctx.facts
+    rule = "pattern-binders"
+    ctx.rule(rule, "Binders::binders for a pattern visits every sub-pattern, and where it merges the binders of several components "
+                   "(tuple, alias) a clash is decided for the later component: im's `union` keeps the receiver's entry, so the "
+                   "receiver of every merge is the later component's map and its argument the accumulated one")
+    h = ctx.need_hir(rule, BINDERS)
+    if h is None:
+        return
+    n = trav.check_traversal(ctx, rule, BINDERS, r"Binders>::binders$", r"syntax::PatId\b", label="binders.pattern",
+                             ignored_ok={"Ann": "the annotation is a term: it binds nothing"})
+    ctx.floor(rule, "children checked", n, 5)
+    m = A.find_match_on(h["body"], lambda x: True)
+    merges = 0
+    for a in m["arms"]:
+        env = A.ArmEnv()
+        env.strip = True
+        env.bind_params(h)
+        for l, p in A.pat_paths(A.strip_or(a["pat"])).items():
+            env.names[l] = "$" + p
+        for c in H.walk(a["body"]):
+            if H.kind(c) == "MethodCall" and re.search(r"HashMap::<K, V(, S)?>::(union|union_with)$", H.callee(c) or ""):
+                merges += 1
+                recv, arg = A.sexpr(c["recv"], env), A.sexpr(c["args"][0], env)
+                later = "Binders>::binders" in recv and "Binders>::binders" not in arg
+                ctx.check(later, rule, "binders:%s:merge-bias" % A.pat_shape(a["pat"]),
+                          "the components of a %s pattern are merged with `%s.union(%s)`: on a repeated name the EARLIER component "
+                          "wins, but pattern components bind left to right (the lexical form binds the later one)"
+                          % (A.pat_shape(a["pat"]), recv[-60:], arg[-60:]), [facts.bodies()[BINDERS]["loc"][0], c.get("ln") or a["ln"]],
+                          detail={"receiver": recv, "argument": arg})
+    ctx.floor(rule, "merges classified", merges, 1)
 
 
 def rule_fresh_clone(ctx):
